@@ -637,6 +637,24 @@ func (o *osapInfo) coversAll(l *Loop, edgePtr ssa.Value) (bool, string) {
 	fi := o.dfi
 	ia, ok := edgePtr.(*ssa.IndexAddr)
 	if !ok {
+		// a local copy of the element (e := q[k]), written once from the element
+		if al, isAl := edgePtr.(*ssa.Alloc); isAl {
+			var st *ssa.Store
+			n := 0
+			for _, ref := range *al.Referrers() {
+				if x, isSt := ref.(*ssa.Store); isSt && x.Addr == ssa.Value(al) {
+					st = x
+					n++
+				}
+			}
+			if n == 1 {
+				if ld, isLd := st.Val.(*ssa.UnOp); isLd && ld.Op == token.MUL {
+					ia, ok = ld.X.(*ssa.IndexAddr)
+				}
+			}
+		}
+	}
+	if !ok {
 		return false, "edge is not an element of a slice"
 	}
 	q := ia.X
